@@ -327,7 +327,7 @@ Definition cb_step (cfg : bconfig) (orig : option byte_decoder) (closed : list s
   | CbStart name attrs => Done (cb_starttag cfg closed name attrs true)
   | CbStartEnd name attrs =>
       let '(e1, closed1) := cb_starttag cfg closed name attrs false in
-      let '(e2, closed2) := cb_endtag closed1 name true in
+      let '(e2, closed2) := cb_endtag closed1 name false in     (* handle_endtag(name, check_already_closed=False) *)
       Done (e1 ++ e2, closed2)
   | CbEnd name => Done (cb_endtag closed name true)
   | CbData s => Done ([EData s], closed)
